@@ -559,6 +559,37 @@ class Interp:
         self.frame.env[n.target.id] = v
         return v
 
+    def havoc_unmodelled_attr(self, o, attr, n):
+        """An instance attribute that the class's own methods assign but the contract's state model does not list: the object may
+        be in any state a previous call left it in, so the attribute is havoc'd over the kinds of value the class assigns to it
+        (None / bool / int / float); any other kind is opaque (its use is unsupported -> undecided, never a violation)."""
+        vals = self.front.instance_attr_values(o.cls, attr)
+        if not vals:
+            return None
+        kinds = []
+
+        def add(k):
+            if k not in kinds:
+                kinds.append(k)
+        for owner, meth, e in vals:
+            if isinstance(e, ast.Constant):
+                v = e.value
+                add("none" if v is None else "bool" if isinstance(v, bool) else "int" if isinstance(v, int) else "real" if isinstance(v, float) else "str" if isinstance(v, str) else "opaque")
+            elif isinstance(e, ast.Call) and isinstance(e.func, ast.Attribute) and isinstance(e.func.value, ast.Name):
+                m = self.front.find_method(o.cls, e.func.attr)
+                ann = ast.unparse(m.node.returns) if (m is not None and m.node.returns is not None) else ""
+                add({"float": "real", "int": "int", "bool": "bool"}.get(ann, "opaque"))
+            else:
+                add("opaque")
+        pick = kinds[self.path.choose(len(kinds), f"unmodelled:{o.cls}.{attr}")] if len(kinds) > 1 else kinds[0]
+        nm = fresh(f"unmodelled_{attr}")
+        v = {"none": lambda: NONE, "bool": lambda: Z(z3.Bool(nm), "bool"), "int": lambda: Z(z3.Int(nm), "int"), "real": lambda: Z(z3.Real(nm), "real"),
+             "str": lambda: Sym(z3.Const(nm, z3.DeclareSort("Misc")), "str"), "opaque": lambda: Sym(z3.Const(nm, z3.DeclareSort("Misc")), "unmodelled")}[pick]()
+        o.f[attr] = v
+        self.path.ghost.setdefault("unmodelled_attrs", []).append(f"{o.cls}.{attr}")
+        self.path.ex.assumed.add(f"{o.cls}.{attr} is outside the contract's state model: havoc'd over the kinds the class assigns ({', '.join(kinds)})")
+        return v
+
     def e_Yield(self, n):
         v = self.ev(n.value) if n.value is not None else NONE
         hook = getattr(self, "yield_hook", None)
@@ -611,6 +642,10 @@ class Interp:
                     return Fn(self.reg.handlers[f"{c}.{attr}"], f"{c}.{attr}", bound=o)
             if default is not None:
                 return default
+            if attr not in o.absent and o.cls in self.front.classes:
+                v = self.havoc_unmodelled_attr(o, attr, n)
+                if v is not None:
+                    return v
             # attribute access on an object that does not have it
             self.implicit_exception(False, "AttributeError", n)
             raise PathEnd()
